@@ -86,10 +86,13 @@ func traceIP(root *ssa.Function, v ssa.Value) string {
 
 var traceRoot *ssa.Function
 
+// traceBind: while a helper's returned value is being read, its parameters stand for the arguments of that call.
+var traceBind = map[*ssa.Parameter]ssa.Value{}
+
 // helperResult: the single non-zero value an unexported same-package helper returns at result idx.
 func helperResult(call *ssa.Call, idx int) ssa.Value {
 	h := call.Call.StaticCallee()
-	if traceRoot == nil || h == nil || h.Pkg != traceRoot.Pkg || len(h.Blocks) == 0 || h.Parent() != nil || h.Object() == nil || h.Object().Exported() {
+	if traceRoot == nil || h == nil || fnPkg(h) == nil || fnPkg(h) != fnPkg(traceRoot) || len(h.Blocks) == 0 || h.Parent() != nil || h.Object() == nil || h.Object().Exported() {
 		return nil
 	}
 	var val ssa.Value
@@ -110,6 +113,23 @@ func helperResult(call *ssa.Call, idx int) ssa.Value {
 	return val
 }
 
+// traceBound traces a helper's returned value with the helper's parameters bound to the call's arguments.
+func traceBound(call *ssa.Call, rv ssa.Value, d int) string {
+	h := call.Call.StaticCallee()
+	var set []*ssa.Parameter
+	for i, p := range h.Params {
+		if _, dup := traceBind[p]; !dup && i < len(call.Call.Args) {
+			traceBind[p] = call.Call.Args[i]
+			set = append(set, p)
+		}
+	}
+	r := traceD(rv, d+1)
+	for _, p := range set {
+		delete(traceBind, p)
+	}
+	return r
+}
+
 func traceD(v ssa.Value, d int) string {
 	if v == nil {
 		return "?"
@@ -120,6 +140,12 @@ func traceD(v ssa.Value, d int) string {
 	if traceRoot != nil {
 		switch x := v.(type) {
 		case *ssa.Parameter:
+			if b, ok := traceBind[x]; ok {
+				delete(traceBind, x)
+				r := traceD(b, d+1)
+				traceBind[x] = b
+				return r
+			}
 			if f := x.Parent(); f != traceRoot && f.Pkg == traceRoot.Pkg && f.Parent() == nil {
 				if cs := callersInPkg(f); len(cs) == 1 {
 					for i, p := range f.Params {
@@ -132,13 +158,13 @@ func traceD(v ssa.Value, d int) string {
 		case *ssa.Extract:
 			if cl, ok := x.Tuple.(*ssa.Call); ok {
 				if rv := helperResult(cl, x.Index); rv != nil {
-					return traceD(rv, d+1)
+					return traceBound(cl, rv, d)
 				}
 			}
 		case *ssa.Call:
 			if x.Call.Signature().Results().Len() == 1 {
 				if rv := helperResult(x, 0); rv != nil {
-					return traceD(rv, d+1)
+					return traceBound(x, rv, d)
 				}
 			}
 		}
